@@ -128,6 +128,16 @@ def r2(model, rep):
     where = "%s:%d" % (rel, helper.lineno)
     # the whole helper against its reference text: default copy -> kind overrides -> name overrides -> heat colour / font /
     # label from the node's own row (exactly when a loss frame is given) -> one node with these attributes
+    # the reference reads the helper's last parameter as the prepared loss frame (or None): what the calls hand over must be that
+    for c in ast.walk(fn):
+        if isinstance(c, ast.Call) and isinstance(c.func, ast.Name) and c.func.id == helper.name and len(c.args) == 4:
+            a = c.args[3]
+            srcs = [a] if not isinstance(a, ast.Name) else [y.value for y in ast.walk(fn) if isinstance(y, ast.Assign) and any(isinstance(t, ast.Name) and t.id == a.id for t in y.targets)]
+            for v in srcs:
+                is_none = isinstance(v, ast.Constant) and v.value is None
+                is_frame = isinstance(v, ast.Call) and isinstance(v.func, ast.Name) and v.func.id == "_prep_loss"
+                if not (is_none or is_frame):
+                    raise AnalysisError("node helper: the heat data handed to %s is %s, not the prepared loss frame: representation not readable" % (helper.name, ast.unparse(v)[:60]))
     from .. import refcmp, sysrules
     ok, rows = refcmp.compare(model, sysrules.roles(model), helper, refcmp.spec_function("spec_diag", "add_node"), rep, "R2",
                               "diagram._diag.add_node", where, "node attributes", free=("sys",), mod="diagram")
